@@ -86,12 +86,12 @@ def run(ctx):
         ctx.model_drift("MatchProg.tla: " + str(r.invariant_violated) + r.out[-600:])
         return
     recs = r.tagged("M")
-    if quick:
-        import random
-        rnd = random.Random(ctx.seed)
-        cov = [x for x in recs if x["accepted"]]
-        rest = [x for x in recs if not x["accepted"]]
-        recs = rnd.sample(cov, min(len(cov), 1000)) + rnd.sample(rest, min(len(rest), 600))
+    ctx.set("matches_derived", len(recs))
+    import random
+    rnd = random.Random(ctx.seed)
+    cov = [x for x in recs if x["accepted"]]
+    rest = [x for x in recs if not x["accepted"]]
+    recs = rnd.sample(cov, min(len(cov), 1000 if quick else 9000)) + rnd.sample(rest, min(len(rest), 600 if quick else 5000))
     rendered = [render(x) for x in recs]
     d = scratch("c33")
     res = compile_and_run(vh, [s for s, _ in rendered], d, opt=1, jobs=14)
